@@ -281,6 +281,26 @@ pub(crate) fn remove_call_info_from_depth(
     });
 }
 
+/// Drops the loops which were started inside the provided line context (the scope of a
+/// script based command) and were left without reaching their end, for example due to an error.
+pub(crate) fn remove_call_info_for_context(
+    line_context_name: &str,
+    state: &mut HashMap<String, StateValue>,
+) {
+    let forin_state = get_core_sub_state_for_command(state, FORIN_STATE_KEY.to_string());
+    let call_info_stack = get_list(CALL_STACK_STATE_KEY.to_string(), forin_state);
+
+    call_info_stack.retain(|state_value| match state_value {
+        StateValue::SubState(call_info_state) => {
+            match deserialize_call_info(&mut call_info_state.clone()) {
+                Some(call_info) => call_info.line_context_name != line_context_name,
+                None => true,
+            }
+        }
+        _ => true,
+    });
+}
+
 fn store_call_info(call_info: &CallInfo, state: &mut HashMap<String, StateValue>) {
     let forin_state = get_core_sub_state_for_command(state, FORIN_STATE_KEY.to_string());
     let call_info_stack = get_list(CALL_STACK_STATE_KEY.to_string(), forin_state);
